@@ -375,7 +375,8 @@ func (d *dec) timestamp(pos, p, ve int) (rm.TS, error) {
 		}
 		return int(v), nil
 	}
-	y, err := rd("year", 1, 9999)
+	// the stored fields are UTC: year 0 / 10000 can occur when the offset moves the local year into 1..9999
+	y, err := rd("year", 0, 10000)
 	if err != nil {
 		return ts, err
 	}
@@ -449,6 +450,9 @@ func (d *dec) timestamp(pos, p, ve int) (rm.TS, error) {
 		ts.Year, ts.Month, ts.Day, ts.Hour, ts.Minute = rm.FromUTC(y, mo, da, h, mi, ts.OffsetKnown, ts.OffsetMin)
 	} else {
 		ts.Year, ts.Month, ts.Day = y, mo, da
+	}
+	if ts.Year < 1 || ts.Year > 9999 {
+		return ts, errf(pos, "timestamp year %d out of range", ts.Year)
 	}
 	return ts, nil
 }
